@@ -246,4 +246,4 @@ def _obligations():
 
 
 def obligations():
-    return _obligations() + [labels_obligation("C04"), selectors_obligation("C04"), effects_obligation("C04")]
+    return _obligations() + [constructors_obligation(['cryomotl.StopgapMotl']), labels_obligation("C04"), selectors_obligation("C04"), effects_obligation("C04")]
